@@ -814,23 +814,26 @@ def files_from_file(path: str | None, node: str | None = None) -> set[ArchiveFil
     return files
 
 
-def validate_md5(md5: str | None) -> None:
+def validate_md5(md5: str | None) -> str | None:
     """Vet a user-provided MD5 hash
 
     The MD5 may be None.
+
+    Returns the hash normalised to the form produced by `hashlib`
+    (lower-case hex digits), which is what must be stored in the
+    database, or None if `md5` was None.
 
     raises click.ClickException if validation fails.
     """
 
     # None is fine.
     if md5 is None:
-        return
+        return None
 
-    # The hash must be a 128-byte number specified as 32 hex digits
-    if len(md5) != 32:
+    # The hash must be a 128-bit number specified as exactly 32 hex digits.
+    # (NB: int(md5, base=16) is too lenient here: it also accepts signs,
+    # underscores, whitespace and non-ASCII digits.)
+    if len(md5) != 32 or any(c not in "0123456789abcdefABCDEF" for c in md5):
         raise click.ClickException(f"invalid hash: {md5}.  Expected 32 hex digits.")
 
-    try:
-        int(md5, base=16)
-    except ValueError:
-        raise click.ClickException(f"invalid hash: {md5}.  Expected 32 hex digits.")
+    return md5.lower()
